@@ -388,16 +388,25 @@ def c13_reopen(rep, W, rule="C13"):
     rep.ob(rule + ".IDEMPOTENT", ("sqlite", "no-destructive-fs-calls"), not fsbad, "file-system calls other than create_dir_all in the sqlite crate: %s" % (fsbad or "none"))
 
 
-def c13_agree(rep, W, rule="C13"):
-    # ---- agreement clause
-    ss, un, uc, inst = S.sql_world(W)
-    S.s_class(rep, W)
+def c13_written(rep, W, rule="C13"):
+    """Per StorageTxn method, the logical fields each back end writes are exactly the contract's.  Composed by every
+    property that says a field changes ONLY through one method (C07: versions only by add_version; C10 / C11: the
+    snapshot's version id, time and bytes only by set_snapshot; C18: the readers write nothing)."""
     for mth, want in CONTRACT.items():
         a = sqlite_written(W, mth)
         b = inmem_written(W, mth)
         rep.ob(rule + ".AGREE", (mth, "written-fields"), a == want and b == want,
                "StorageTxn::%s writes: sqlite %s, in-memory %s, contract %s" % (mth, sorted(a), sorted(b), sorted(want)),
                sample={"sqlite": sorted(a), "inmemory": sorted(b), "contract": sorted(want)})
+
+
+def c13_agree(rep, W, rule="C13"):
+    # ---- agreement clause
+    ss, un, uc, inst = S.sql_world(W)
+    S.s_class(rep, W)
+    c13_written(rep, W, rule)
+    S.s_failmodes(rep, W)       # both back ends fail for the same tabled reasons only
+    S.s_mematomic(rep, W)       # failure modes: SQLite rolls a failed transaction back, the in-memory store cannot
     S.c01_key(rep, W)
     S.c02_cnt(rep, W)
     S.c11(rep, W)
@@ -418,6 +427,35 @@ def c13_agree(rep, W, rule="C13"):
         "sub-second timestamp truncation in SQLite -- exempted by the property",
         "in-memory panics on an uncommitted written transaction being dropped -- unreachable given S-TXN3",
     ]
+
+
+def c04_schema_every_open(rep, W, rule="C04"):
+    """The schema is created by separate autocommit statements, each `IF NOT EXISTS`; a start-up killed between two of them
+    is completed by the next start only because EVERY open runs them all again.  So: SqliteStorage::new returns Ok only
+    after each schema statement -- straight-line (the statement's result is Ok on every path to the exit) or in a loop over
+    the statement list that ran to exhaustion."""
+    ss, un, uc, inst = S.sql_world(W)
+    nb = W.body(WD.SQLITE + "::SqliteStorage::new")
+    g = W.gea(nb)
+    pv = W.prov(nb)
+    nexts = [a for a in g.atoms if a[0] == "VARIANT" and a[1][0] == "call" and a[1][1].endswith("Iterator::next")]
+    n = 0
+    for i in inst:
+        if i.stmt is None or i.owner.key != nb.key or not i.stmt["verb"].startswith("CREATE"):
+            continue
+        n += 1
+        atom = S.variant_atom(pv.def_term((i.site.bb, "T")))
+        okall = True
+        for site, term in S.exits(W, nb):
+            if S.is_error_exit(term):
+                continue
+            straight = S.all_vals(g, site, ("is", atom, "ok"))
+            looped = any(S.all_vals(g, site, ("is", a, "err")) and g.may_follow(a[1][2], i.site.bb) and g.may_follow(i.site.bb, a[1][2]) for a in nexts)
+            okall = okall and (straight or looped)
+        rep.ob(rule + ".SCHEMA", ("SqliteStorage::new", "every-open", i.stmt["verb"] + ":" + str(i.stmt.get("table"))), okall,
+               "SqliteStorage::new returns Ok only after %s %s was executed (on every open, so that a half-created schema is completed)" % (i.stmt["verb"], i.stmt.get("table")),
+               i.where())
+    rep.floor(rule + ".SCHEMA", "schema statements in SqliteStorage::new", n, 3)
 
 
 # =========================================================================== C04
@@ -442,6 +480,7 @@ def c04(rep, W, rule="C04"):
             if not S.is_error_exit(term):
                 rep.ob(rule + ".PRAGMA", ("SqliteStorage::new", "wal-before-ok"), S.all_vals(g, site, ("is", atom, "ok")),
                        "SqliteStorage::new returns Ok only after the WAL pragma succeeded", where(nb))
+    c04_schema_every_open(rep, W, rule)
     # positive example for the zero-count part of the rule
     ex = SM.SQL.parse("PRAGMA synchronous=OFF")
     rep.ob(rule + ".PRAGMA", ("selfcheck", "positive-example"), (ex["pragma"], ex["pragma_value"]) == ("synchronous", "OFF"),
@@ -843,6 +882,6 @@ def c06(rep, W, rule="C06"):
     # 4. Ops return the storage record's fields (C08 i / C11.READ)
     S.c08(rep, W)
     # 5. read handlers: body + id headers from the same outcome (C14 rows found/found)
-    H.c14_tables(rep, W)
+    H.c14_tables(rep, W, modules=("get_child_version", "get_snapshot"))
     # transparent-wrapper table used on the path
     rep.extra["identity_transports"] = sorted(P.TRANSPARENT)
